@@ -431,6 +431,57 @@ EDGE_CASES = [
 ]
 
 
+# one-edit neighbourhoods of descriptions that show every construct of the grammar: at every token boundary the white space is removed,
+# made horizontal, made a line break; every word is rewritten as every other kind of string part; every grammar token is inserted.
+# (A grammar rule that is relaxed or tightened by one token changes the outcome of one of these.)
+SHOWCASE = [
+    "a, b c := fry(1 kg of the x, {2 large tins} of y, 1/2 of z,), chop, 'fine'",
+    "sauce = boil(rest of the stock, 50 % of wine, 2 * cream, remaining butter)",
+    "{1 big jar} of jam, spread",
+    "(1 1/2 tea spoons salt, grind), sieve",
+    "x {3} y = mix({2} eggs, 'a' \"b\" c)",
+    "left over pastry, roll\n2 eggs, beat",
+    "p, q = split(1 l milk)",
+]
+SUBSTITUTES = ["w", "'w'", '"w"', "{w}", "{}", "{3}", "{w {3}}", "3", "1/2", "of", "the", "g", "rest", "%", "*"]
+
+
+def neighbourhood(text):
+    out = []
+    spans = _token_spans(text)
+    for (a, b) in spans:
+        tok = text[a:b]
+        if tok.isspace():
+            for rep in ("", " ", "\t", "\n", " \n ", "\r\n"):
+                if rep != tok:
+                    out.append(text[:a] + rep + text[b:])
+        else:
+            for ws in (" ", "\n"):
+                if a > 0 and not text[a - 1].isspace():
+                    out.append(text[:a] + ws + text[a:])
+            if tok.isalnum():
+                for rep in SUBSTITUTES:
+                    out.append(text[:a] + rep + text[b:])
+                for rep in SUBSTITUTES[1:8]:
+                    out.append(text[:a] + tok + " " + rep + text[b:])
+            else:
+                out.append(text[:a] + text[b:])
+                out.append(text[:a] + tok + tok + text[b:])
+        for t in ("{", "}", "(", ")", ",", "="):
+            out.append(text[:a] + t + text[a:])
+    return out
+
+
+def neighbours():
+    seen, out = set(), []
+    for s_ in SHOWCASE:
+        for t in neighbourhood(s_):
+            if t not in seen:
+                seen.add(t)
+                out.append(t)
+    return out
+
+
 # ------------------------------------------------------------------ comparison
 
 
